@@ -120,7 +120,7 @@ def run(tier, seed):
     ctx = core.Ctx(PID, tier, seed, LEVEL)
     rng = ctx.rng
     depth = 3
-    d3_sample = 20000 if tier == "quick" else core.share(250000)
+    d3_sample = 20000 if tier == "quick" else core.share(1000000)
     replicas = 2 if tier == "quick" else 4
     level = [("lib",)]
     terms = [("lib",)]
